@@ -2,6 +2,8 @@ package simrt
 
 import (
 	"iter"
+	"os"
+	"strconv"
 	"time"
 )
 
@@ -119,8 +121,13 @@ func choose(rs []*task) *task {
 	return pick
 }
 
+var traceSched = os.Getenv("CRDSIM_TRACE") != ""
+
 func switchTo(next *task, wait bool) {
 	prev := cur
+	if traceSched {
+		os.Stderr.WriteString("sched: " + strconv.Itoa(prev.id) + " -> " + strconv.Itoa(next.id) + "\n")
+	}
 	if next == prev {
 		return
 	}
@@ -145,6 +152,9 @@ func block() {
 	cur.state = stBlocked
 	rs := runnable(false)
 	if len(rs) == 0 {
+		if selectRendezvousWaiters > 0 {
+			trouble("all tasks blocked while a select waits on an unbuffered channel: a rendezvous between two selects is not modelled")
+		}
 		journal.Note = "all tasks blocked"
 		finish("deadlock", ExitDeadlock)
 	}
@@ -171,6 +181,9 @@ func spawn(fn func()) {
 		t.state = stDone
 		rs := runnable(false)
 		if len(rs) == 0 {
+			if selectRendezvousWaiters > 0 {
+				trouble("all tasks blocked while a select waits on an unbuffered channel: a rendezvous between two selects is not modelled")
+			}
 			journal.Note = "all tasks blocked (after task end)"
 			finish("deadlock", ExitDeadlock)
 		}
@@ -189,8 +202,18 @@ func Go0R[R any](f func() R)                            { spawn(func() { f() }) 
 func Go1R[A, R any](f func(A) R, a A)                   { spawn(func() { f(a) }) }
 func Go2R[A, B, R any](f func(A, B) R, a A, b B)        { spawn(func() { f(a, b) }) }
 
+// yieldOthers: the running task stays runnable but lets another runnable
+// task (if any) go first, whatever the policy says about staying.
+func yieldOthers() {
+	rs := runnable(false)
+	if len(rs) == 0 {
+		return
+	}
+	switchTo(choose(rs), true)
+}
+
 // Gosched replaces runtime.Gosched.
-func Gosched() { yieldPoint() }
+func Gosched() { yieldOthers() }
 
 // ---------------------------------------------------------------------------
 // Chan replaces chan T (all directions).
@@ -198,17 +221,25 @@ func Gosched() { yieldPoint() }
 type sendWaiter[T any] struct {
 	t    *task
 	v    T
-	done *bool
+	done bool
+}
+
+type recvWaiter[T any] struct {
+	t    *task
+	v    T
+	ok   bool
+	done bool
 }
 
 type Chan[T any] struct {
 	buf    []T
 	capa   int
 	closed bool
-	recvq  []*task
-	sendq  []*task
-	// unbuffered rendezvous
+	recvq  []*task // woken when something may have become receivable (or closed)
+	sendq  []*task // woken when something may have become sendable (or closed)
+	// unbuffered rendezvous: blocked plain senders / receivers
 	slots []*sendWaiter[T]
+	rwait []*recvWaiter[T]
 }
 
 func MakeChan[T any](n int) *Chan[T] {
@@ -232,6 +263,78 @@ func (c *Chan[T]) Cap() int {
 	return c.capa
 }
 
+func wake(t *task) {
+	if t.state == stBlocked {
+		t.state = stRunnable
+	}
+}
+
+// trySend performs a send if it can complete without blocking.
+func (c *Chan[T]) trySend(v T) bool {
+	if c.closed {
+		panic("send on closed channel")
+	}
+	if c.capa == 0 {
+		if len(c.rwait) == 0 {
+			return false
+		}
+		rw := c.rwait[0]
+		c.rwait = c.rwait[1:]
+		rw.v, rw.ok, rw.done = v, true, true
+		wake(rw.t)
+		return true
+	}
+	if len(c.buf) < c.capa {
+		c.buf = append(c.buf, v)
+		if len(c.buf) > journal.ChanMaxLen {
+			journal.ChanMaxLen = len(c.buf)
+		}
+		wakeAll(&c.recvq)
+		return true
+	}
+	return false
+}
+
+func (c *Chan[T]) canSend() bool {
+	if c == nil {
+		return false
+	}
+	if c.closed {
+		return true // fires a panic, as in Go
+	}
+	if c.capa == 0 {
+		return len(c.rwait) > 0
+	}
+	return len(c.buf) < c.capa
+}
+
+// tryRecv performs a receive if it can complete without blocking.
+func (c *Chan[T]) tryRecv() (T, bool, bool) {
+	var zero T
+	if len(c.buf) > 0 {
+		v := c.buf[0]
+		c.buf[0] = zero
+		c.buf = c.buf[1:]
+		wakeAll(&c.sendq)
+		return v, true, true
+	}
+	if len(c.slots) > 0 {
+		s := c.slots[0]
+		c.slots = c.slots[1:]
+		s.done = true
+		wake(s.t)
+		return s.v, true, true
+	}
+	if c.closed {
+		return zero, false, true
+	}
+	return zero, false, false
+}
+
+func (c *Chan[T]) canRecv() bool {
+	return c != nil && (len(c.buf) > 0 || len(c.slots) > 0 || c.closed)
+}
+
 func (c *Chan[T]) Send(v T) {
 	yieldPoint()
 	if c == nil {
@@ -239,14 +342,14 @@ func (c *Chan[T]) Send(v T) {
 			block()
 		}
 	}
+	if c.trySend(v) {
+		return
+	}
 	if c.capa == 0 {
-		if c.closed {
-			panic("send on closed channel")
-		}
-		done := false
-		c.slots = append(c.slots, &sendWaiter[T]{t: cur, v: v, done: &done})
+		sw := &sendWaiter[T]{t: cur, v: v}
+		c.slots = append(c.slots, sw)
 		wakeAll(&c.recvq)
-		for !done {
+		for !sw.done {
 			if c.closed {
 				panic("send on closed channel")
 			}
@@ -257,54 +360,53 @@ func (c *Chan[T]) Send(v T) {
 		return
 	}
 	for {
-		if c.closed {
-			panic("send on closed channel")
-		}
-		if len(c.buf) < c.capa {
-			c.buf = append(c.buf, v)
-			if len(c.buf) > journal.ChanMaxLen {
-				journal.ChanMaxLen = len(c.buf)
-			}
-			wakeAll(&c.recvq)
-			return
-		}
 		journal.BlockedSends++
 		c.sendq = append(c.sendq, cur)
 		block()
+		if c.trySend(v) {
+			return
+		}
 	}
 }
 
 func (c *Chan[T]) Recv2() (T, bool) {
 	yieldPoint()
-	var zero T
 	if c == nil {
 		for {
 			block()
 		}
 	}
-	for {
-		if len(c.buf) > 0 {
-			v := c.buf[0]
-			c.buf[0] = zero
-			c.buf = c.buf[1:]
-			wakeAll(&c.sendq)
-			return v, true
-		}
-		if len(c.slots) > 0 {
-			s := c.slots[0]
-			c.slots = c.slots[1:]
-			*s.done = true
-			if s.t.state == stBlocked {
-				s.t.state = stRunnable
+	if v, ok, done := c.tryRecv(); done {
+		return v, ok
+	}
+	if c.capa == 0 {
+		rw := &recvWaiter[T]{t: cur}
+		c.rwait = append(c.rwait, rw)
+		wakeAll(&c.sendq)
+		for !rw.done {
+			if c.closed {
+				for i, x := range c.rwait {
+					if x == rw {
+						c.rwait = append(c.rwait[:i], c.rwait[i+1:]...)
+						break
+					}
+				}
+				var zero T
+				return zero, false
 			}
-			return s.v, true
+			journal.BlockedRecvs++
+			c.recvq = append(c.recvq, cur)
+			block()
 		}
-		if c.closed {
-			return zero, false
-		}
+		return rw.v, rw.ok
+	}
+	for {
 		journal.BlockedRecvs++
 		c.recvq = append(c.recvq, cur)
 		block()
+		if v, ok, done := c.tryRecv(); done {
+			return v, ok
+		}
 	}
 }
 
@@ -337,6 +439,95 @@ func (c *Chan[T]) All() iter.Seq[T] {
 			if !yield(v) {
 				return
 			}
+		}
+	}
+}
+
+// ---------------------------------------------------------------------------
+// select
+
+type SelCase interface {
+	ready() bool
+	fire()
+	register(t *task)
+	unbuffered() bool
+}
+
+type RecvOp[T any] struct {
+	c  *Chan[T]
+	v  T
+	ok bool
+}
+
+func NewRecv[T any](c *Chan[T]) *RecvOp[T] { return &RecvOp[T]{c: c} }
+func (o *RecvOp[T]) Value() T            { return o.v }
+func (o *RecvOp[T]) Value2() (T, bool)   { return o.v, o.ok }
+func (o *RecvOp[T]) ready() bool         { return o.c.canRecv() }
+func (o *RecvOp[T]) fire()               { o.v, o.ok, _ = o.c.tryRecv() }
+func (o *RecvOp[T]) unbuffered() bool    { return o.c != nil && o.c.capa == 0 }
+func (o *RecvOp[T]) register(t *task) {
+	if o.c != nil {
+		o.c.recvq = append(o.c.recvq, t)
+	}
+}
+
+type SendOp[T any] struct {
+	c *Chan[T]
+	v T
+}
+
+func NewSend[T any](c *Chan[T], v T) *SendOp[T] { return &SendOp[T]{c: c, v: v} }
+func (o *SendOp[T]) ready() bool               { return o.c.canSend() }
+func (o *SendOp[T]) fire()                     { o.c.trySend(o.v) }
+func (o *SendOp[T]) unbuffered() bool          { return o.c != nil && o.c.capa == 0 }
+func (o *SendOp[T]) register(t *task) {
+	if o.c != nil {
+		o.c.sendq = append(o.c.sendq, t)
+	}
+}
+
+var selectRendezvousWaiters int
+
+// Select replaces a select statement: returns the index of the case that
+// fired, -1 for default. Among several ready cases the choice is drawn from
+// the scheduler stream (Go chooses uniformly at random).
+func Select(hasDefault bool, cases ...SelCase) int {
+	yieldPoint()
+	for {
+		var ready []int
+		for i, c := range cases {
+			if c.ready() {
+				ready = append(ready, i)
+			}
+		}
+		if len(ready) > 0 {
+			i := ready[0]
+			if len(ready) > 1 {
+				journal.SchedChoices++
+				if step.SchedPolicy != "run-to-block" && step.SchedPolicy != "" {
+					i = ready[schedRNG.intn(len(ready))]
+				}
+				journal.SchedHash = mixHash(journal.SchedHash, uint64(i)+1000)
+			}
+			cases[i].fire()
+			return i
+		}
+		if hasDefault {
+			return -1
+		}
+		unbuf := false
+		for _, c := range cases {
+			c.register(cur)
+			if c.unbuffered() {
+				unbuf = true
+			}
+		}
+		if unbuf {
+			selectRendezvousWaiters++
+		}
+		block()
+		if unbuf {
+			selectRendezvousWaiters--
 		}
 	}
 }
@@ -496,7 +687,7 @@ func Sleep(d time.Duration) {
 	if d > 0 {
 		ticks += int64(d / time.Microsecond)
 	}
-	yieldPoint()
+	yieldOthers()
 }
 
 func NumCPU() int {
